@@ -489,6 +489,11 @@ func propSpecs() map[string]*PropSpec {
 	for f, nm := range []string{"full reference", "image reference", "definition"} {
 		cm(c12, "H_C12_multiline", int64(f), 0, nm+" whose label continues on the next line inside a block quote / list item (4 container spellings, letters free)", "quick")
 	}
+	cm(c12, "H_C12_fallback", 0, 0, "shortcut reference followed by a '[' that does not begin a link label (4 tails x 4 label variants)", "quick")
+	cm(c12, "H_C12_fallback", 1, 0, "shortcut image followed by a '[' that does not begin a link label", "quick")
+	for _, n := range []int64{998, 999, 1000, 1001} {
+		cm(c12, "H_C12_limit", n, 0, fmt.Sprintf("label of %d characters (plain, ending in an escaped bracket, padded with spaces): definition, shortcut and full reference", n), "quick")
+	}
 	for e, nm := range []string{"LF", "CRLF", "bare CR"} {
 		cm(c12, "H_C12_adjacent", int64(e), 0, "two definitions on adjacent lines of one paragraph ("+nm+"), optional block quote / title / trailing text line, competing or distinct labels", "quick")
 	}
